@@ -11,6 +11,13 @@ against an ECU model behind a transport that keeps an ECU-side ground-truth log.
                          whose payload (bytes after the service id) is shorter than the minimum is dropped by the ECU without
                          any reply and without any effect (an ECU that silently discards under-length requests); logged with
                          reply None, log indices kept in self.muted.
+                         `silent_reset` = {"where": "always" | "non-default", "p": probability, "seed": int}: an ECUReset the
+                         ECU accepts is EXECUTED (state back to power-on, default session) but, under that rule, never answered
+                         (the reset is faster than the response); the log shows reply None and session-after 1.
+                         `hooked` = {(from, to)}: transitions the ECU refuses with conditionsNotCorrect (0x22) unless the
+                         request directly before the DiagnosticSessionControl armed them: WriteDataByIdentifier
+                         UNLOCK_DID <session id> (one-shot, consumed by the next session change request, cleared by a reset).
+    hook_ecu_class       harness OEM subclass of gallia's ECU whose set_session_pre() hook sends that arming request.
     ResultCapture        logging handler collecting the result-tagged records of the scanner (no console / file output).
     make_scanner         builds a scanner object from keyword options through its own pydantic CONFIG_TYPE (no CLI).
     run_scanner          runs main() (ecu assigned directly) or run() = setup()/main()/teardown() (transport loader patched);
@@ -26,6 +33,7 @@ from __future__ import annotations
 
 import asyncio
 import logging
+import random
 from collections import deque
 from typing import Any
 
@@ -124,11 +132,18 @@ class GraphECU(UDSServer):
     guarded: (from, to) -> NRC answered instead of the change (the sub-function is offered, the ECU stays where it is)."""
 
     def __init__(self, edges: dict[int, list[int]], guarded: dict[tuple[int, int], int] | None = None,
-                 with_reset: bool = True, with_rdbi: bool = True) -> None:
+                 with_reset: bool = True, with_rdbi: bool = True, silent_reset: dict[str, Any] | None = None,
+                 hooked: Any = None) -> None:
         super().__init__()
         self.edges = {int(k): sorted(int(x) for x in v) for k, v in edges.items()}
         self.guarded = dict(guarded or {})
-        sessions = set(self.edges) | {x for v in self.edges.values() for x in v} | {1} | {b for (_, b) in self.guarded}
+        self.hooked = {(int(a), int(b)) for a, b in (hooked or ())}
+        self.armed: int | None = None  # session id armed by the last UNLOCK_DID write
+        self.n_armed = 0
+        self.silent_reset = dict(silent_reset) if silent_reset else None
+        self._silent_rng = random.Random(self.silent_reset.get("seed", 0)) if self.silent_reset else None
+        self.n_silent_resets = 0
+        sessions = set(self.edges) | {x for v in self.edges.values() for x in v} | {1} | {b for (_, b) in self.guarded} | {x for e in self.hooked for x in e}
         self._services: dict[int, dict[UDSIsoServices, list[int] | None]] = {}
         for s in sorted(sessions):
             d: dict[UDSIsoServices, list[int] | None] = {
@@ -139,6 +154,8 @@ class GraphECU(UDSServer):
                 d[UDSIsoServices.ReadDataByIdentifier] = None
             if with_reset:
                 d[UDSIsoServices.EcuReset] = [1, 2, 3]
+            if self.hooked:
+                d[UDSIsoServices.WriteDataByIdentifier] = None
             self._services[s] = d
 
     @property
@@ -150,12 +167,64 @@ class GraphECU(UDSServer):
             nrc = self.guarded.get((self.state.session, request.diagnostic_session_type))
             if nrc is not None:
                 return service.NegativeResponse(request.service_id, UDSErrorCodes(nrc))
+            if (self.state.session, request.diagnostic_session_type) in self.hooked and self.armed != request.diagnostic_session_type:
+                return service.NegativeResponse(request.service_id, UDSErrorCodes.conditionsNotCorrect)
         return super().default_response_if_session_change(request)
 
     async def respond_after_default(self, request: service.UDSRequest) -> service.UDSResponse | None:
         if isinstance(request, service.ECUResetRequest):
             return service.ECUResetResponse(request.reset_type)
+        if self.hooked and isinstance(request, service.WriteDataByIdentifierRequest):
+            if request.data_identifier == UNLOCK_DID and len(request.data_record) == 1:
+                self.armed = request.data_record[0]
+                self.n_armed += 1
+                return service.WriteDataByIdentifierResponse(request.data_identifier)
+            return service.NegativeResponse(request.service_id, UDSErrorCodes.requestOutOfRange)
         return None
+
+    async def respond(self, request: service.UDSRequest) -> service.UDSResponse | None:
+        before = self.state.session
+        response = await super().respond(request)
+        if isinstance(request, service.DiagnosticSessionControlRequest):
+            self.armed = None  # one-shot: whatever the answer, the arming is used up by the next session change request
+        if isinstance(request, service.ECUResetRequest) and isinstance(response, service.ECUResetResponse):
+            self.armed = None
+            sr = self.silent_reset
+            if sr is not None and (sr.get("where", "always") == "always" or before != 1):
+                assert self._silent_rng is not None
+                if self._silent_rng.random() < sr.get("p", 1.0):
+                    self.n_silent_resets += 1
+                    return None  # the reset has been carried out (update_state ran); the answer is never sent
+        return response
+
+
+UNLOCK_DID = 0xF05E
+
+
+def arming_request(session: int) -> bytes:
+    return bytes([0x2E, UNLOCK_DID >> 8, UNLOCK_DID & 0xFF, session & 0xFF])
+
+
+_hook_ecu: Any = None
+
+
+def hook_ecu_class() -> Any:
+    """OEM-specific ECU class of the harness: set_session_pre() arms the requested session on the ECU (a request on the wire,
+    visible in the ECU-side log).  gallia calls the hook from ECU.set_session() unless UDSRequestConfig.skip_hooks is set."""
+    global _hook_ecu
+    if _hook_ecu is None:
+        from gallia.services.uds import NegativeResponse, UDSRequestConfig
+        from gallia.services.uds.ecu import ECU
+
+        class HookECU(ECU):
+            OEM = "vf-hooked"
+
+            async def set_session_pre(self, level: int, config: UDSRequestConfig | None = None) -> bool:
+                resp = await self.write_data_by_identifier(UNLOCK_DID, bytes([level & 0xFF]), config=UDSRequestConfig(skip_hooks=True))
+                return not isinstance(resp, NegativeResponse)
+
+        _hook_ecu = HookECU
+    return _hook_ecu
 
 
 # ---- result capture ----------------------------------------------------------------------------------------------
@@ -219,13 +288,15 @@ class _Loader:
         return self.transport
 
 
-async def run_scanner(scanner: Any, transport: InProcessTransport, full: bool, db: bool = False) -> dict[str, Any]:
+async def run_scanner(scanner: Any, transport: InProcessTransport, full: bool, db: bool = False, ecu_cls: Any = None) -> dict[str, Any]:
     """full=False: scanner.ecu is assigned and main() awaited.  full=True: the real run() (= setup(), main(), teardown())
     with gallia.plugins.plugin.load_transport patched to hand out `transport`.
     db=True (config.db must name the sqlite file; real event loop only): the scanner's own _db_insert_run_meta() runs first and
     _db_finish_run_meta() last, as in entry_point(); with full=False the database part of UDSScanner.setup() is repeated here
     (handler handed to the ECU, insert_scan_run(target)).
+    ecu_cls: OEM ECU class to use instead of gallia's default ECU (full=True: gallia.command.uds.load_ecu patched to hand it out).
     Returns {"exit": None | code, "error": exception | None, "run": scan_run id | None}."""
+    from gallia.command import uds as uds_command
     from gallia.plugins import plugin
     from gallia.services.uds.ecu import ECU
 
@@ -235,14 +306,18 @@ async def run_scanner(scanner: Any, transport: InProcessTransport, full: bool, d
             await scanner._db_insert_run_meta()
         if full:
             orig = plugin.load_transport
+            orig_ecu = uds_command.load_ecu
             plugin.load_transport = lambda target: _Loader(transport)  # type: ignore[assignment]
+            if ecu_cls is not None:
+                uds_command.load_ecu = lambda vendor: ecu_cls  # type: ignore[assignment]
             try:
                 await scanner.run()
             finally:
                 plugin.load_transport = orig  # type: ignore[assignment]
+                uds_command.load_ecu = orig_ecu  # type: ignore[assignment]
         else:
             scanner.transport = transport
-            scanner.ecu = ECU(transport, timeout=scanner.config.timeout, max_retry=scanner.config.max_retries)
+            scanner.ecu = (ecu_cls or ECU)(transport, timeout=scanner.config.timeout, max_retry=scanner.config.max_retries)
             if db:
                 scanner.ecu.db_handler = scanner.db_handler
                 await scanner.db_handler.insert_scan_run(scanner.config.target.raw)
